@@ -332,6 +332,7 @@ type Exec struct {
 	rangeAxioms []rangeAxiom
 	curLoop     *loopInfo
 	selRoots    []map[string]bool
+	callArgs    []Value // arguments of the call whose call-site assertion is being evaluated
 	uses        []int // when non-nil: only these loop invariants are kept as hypotheses of the obligation being built
 }
 
